@@ -18,6 +18,8 @@ theorem c01_on_source (c : Cfg) (pre : Nat → Option File) (n p : Nat) (f : Fil
   c01_final_is_complete taskSem generated_wf_c01 c pre n p f h hfresh
 
 
+theorem generated_all_ops_known_c01 : taskSemKnown = true := by decide
+
 -- BEGIN PINS (written by bin/mkpins; do not edit by hand)
 /-- the Go functions this property's model and obligations were written against have exactly the
 pinned skeletons (SHA-256 prefix of the atom list) -/
@@ -35,6 +37,7 @@ theorem pinned_skeletons_c01 :
 -- END PINS
 
 end SciVerif.Tie
+#print axioms SciVerif.Tie.generated_all_ops_known_c01
 #print axioms SciVerif.Tie.pinned_skeletons_c01
 #print axioms SciVerif.Tie.generated_wf_c01
 #print axioms SciVerif.Tie.c01_on_source
